@@ -43,7 +43,7 @@ RULE = ('each run = one seeded acyclic model (half of them multi-sheet and '
         'cell level, fault fired)')
 ASSUMPTIONS = [
     'isolated outcome = fresh copy of the same model, fresh evaluator of the same kind, only that cell evaluated',
-    'footprint = len(gc.get_objects()) and total len() of all lists/dicts/sets after gc.collect() (both exactly reproducible) corroborated by tracemalloc bytes; last third of the soak only; bounds 64 objects / 64 container slots / 256 KiB independent of N',
+    'footprint = len(gc.get_objects()) and total len() of all lists/dicts/sets after gc.collect() (both exactly reproducible), sys.getallocatedblocks() (bound 300 + evaluations/4, measured noise <= 205) and tracemalloc bytes; last third of the soak only; bounds 64 objects / 64 container slots / 256 KiB independent of N',
     'soaks in which asynchronous interrupts were injected record their growth but are not judged (an abort is not an evaluation in the sense of the statement)',
     'generated text constants cannot be parsed as partial dates (Excel itself is clock dependent there)',
     'an interrupted or transiently failed call makes no claim about its own result',
@@ -192,6 +192,20 @@ def gen_soak(rng, seed, tier):
     world = worlds.gen_world(rng, n_formulas=rng.randint(2, 7), stale=False,
                              userfuncs=False)
     worlds.add_env_cells(rng, world)
+    # cells whose every evaluation produces objects that never compare equal
+    # to earlier ones (NaN) or fresh big values: whatever memoises on them
+    # grows with the number of evaluations
+    for k, f in enumerate(rng.sample(
+            ['=ROUND(1E308*10-1E308*10,2)', '=ROUNDUP(1E308*10-1E308*10,1)',
+             '=INT(1E308*10-1E308*10)', '=ABS(1E308*10-1E308*10)',
+             '=MAX(1E308*10-1E308*10,1)', '=FACT(150)&"x"',
+             '=SUM(1E308*10-1E308*10,2)', '=IF(1E308*10-1E308*10>0,1,2)'],
+            2)):
+        a = f'Sheet1!W{k + 1}'
+        world['cells'][a] = f
+        world['deps'][a] = []
+        world['level'][a] = 1
+        world['order'].append(a)
     formulas = [a for a in world['order'] if world['level'][a] > 0]
     if rng.random() < 0.4:
         # a cell whose evaluation raises (Python-level failure) every round,
@@ -626,6 +640,17 @@ def run_soak(case):
                            'why': 'some list/dict/set keeps growing (its '
                            'elements need not be GC-tracked objects)',
                            'bound_slots': SLOT_BOUND}}
+    elif d_blocks > 300 + (calls // 3) // 4:
+        # allocator blocks: also sees growth made of objects the garbage
+        # collector does not track (floats, strings, untracked dicts); noise
+        # measured at <= 205 blocks independent of the number of evaluations
+        viol = {'tag': 'memory-accumulates',
+                'detail': {'rounds': rounds, 'evaluations': calls,
+                           'allocated_blocks_at_thirds': blocks,
+                           'block_growth_last_third': d_blocks,
+                           'per_evaluation': round(
+                               d_blocks / max(1, calls / 3), 2),
+                           'bound_blocks': 300 + (calls // 3) // 4}}
     elif grown > BYTE_BOUND:
         viol = {'tag': 'memory-accumulates',
                 'detail': {'rounds': rounds, 'evaluations': calls,
